@@ -280,6 +280,13 @@ class AbsInt:
         if labels is None:
             labels = self.edge_labels(bb) or {}
             self._labels_cache[bb] = labels
+        if t["k"] == "switch" and labels and len(succs) > 1:
+            # the same outcome tested a second time on this path (a helper logs `if let Err(e) = &r`, its caller matches `r`
+            # again): the arm that contradicts what the first test established is infeasible
+            decided = [s for s in succs if labels.get(s) and set(labels[s]) <= flags]
+            contra = [s for s in succs if labels.get(s) and not (set(labels[s]) <= flags)]
+            if len(decided) == 1 and contra:
+                succs = [s for s in succs if s not in contra]
         sf = frozenset(store.items())
         out = []
         if self.edge_filter is not None:
